@@ -963,7 +963,15 @@ def _fold_calls(tree):
 
 
 def fold_calls_of(tree):
-    return sorted({ast.dump(c) for c in _fold_calls(tree)})
+    """'qualified function|method' for every function that contains such a call (keyed by function: a renamed local must not make the call look new)"""
+    funcs, _ = index_functions("", tree)
+    out = set()
+    for q, f in funcs.items():
+        for c in _fold_calls(f):
+            out.add("%s|%s" % (q, c.func.attr))
+    for c in _fold_calls(ast.Module(body=[st for st in tree.body if not isinstance(st, (ast.FunctionDef, ast.ClassDef))], type_ignores=[])):
+        out.add("<module>|%s" % c.func.attr)
+    return sorted(out)
 
 
 def load_fold_calls():
@@ -974,13 +982,19 @@ def load_fold_calls():
 
 def fold_calls_to_operators(tree, recorded):
     n = 0
+    funcs, _ = index_functions("", tree)
+    owner = {}
+    for q, f in sorted(funcs.items(), key=lambda kv: len(kv[0])):           # innermost function wins
+        for x in ast.walk(f):
+            owner[id(x)] = q
 
     class T(ast.NodeTransformer):
         def visit_Call(self, c):
             nonlocal n
-            was = ast.dump(c)
+            q = owner.get(id(c), "<module>")
             self.generic_visit(c)
-            if isinstance(c.func, ast.Attribute) and c.func.attr in _FOLD and c.args and not c.keywords and not any(isinstance(a, ast.Starred) for a in c.args) and was not in recorded \
+            if isinstance(c.func, ast.Attribute) and c.func.attr in _FOLD and c.args and not c.keywords and not any(isinstance(a, ast.Starred) for a in c.args) \
+                    and "%s|%s" % (q, c.func.attr) not in recorded \
                     and not (isinstance(c.func.value, ast.Call) and isinstance(c.func.value.func, ast.Name) and c.func.value.func.id == "super"):
                 r = c.func.value
                 for a in c.args:
